@@ -62,7 +62,7 @@ def render_template(t):
 layer = st.one_of(
     st.fixed_dictionaries({"k": st.just("plain")}),
     st.fixed_dictionaries({"k": st.just("logger"),
-                           "name": st.one_of(st.none(), st.lists(st.sampled_from(["a", "b", "cobald", "monitor", "x y", "ä"]), min_size=1, max_size=3).map(".".join)),
+                           "name": st.one_of(st.none(), st.sampled_from(["", "root"]), st.lists(st.sampled_from(["a", "b", "cobald", "monitor", "x y", "ä"]), min_size=1, max_size=3).map(".".join)),
                            "level": st.integers(1, 50),
                            "msg": st.one_of(st.none(), template())}),
     st.fixed_dictionaries({"k": st.just("std"), "min": st.one_of(st.none(), st.integers(-5, 20)),
@@ -132,7 +132,8 @@ def run_case(spec) -> Result:
                     kw["backlog"] = L["backlog"]
                 obj = Standardiser(target, **kw)
             else:
-                name = None if L["name"] is None else f"verif.c16.n{uid}.{L['name']}"
+                # "" and "root" address the root logger, as everywhere in the logging module
+                name = L["name"] if L["name"] in (None, "", "root") else f"verif.c16.n{uid}.{L['name']}"
                 kw = {"name": name, "level": L["level"]}
                 valid = True
                 if L["msg"] is not None:
@@ -154,7 +155,7 @@ def run_case(spec) -> Result:
                 if not valid:
                     res.fail("logger-accepts-unknown-field", f"template {kw['message']!r} names an unknown field but Logger was constructed")
                     return res
-                want_name = name if name is not None else type(target).__qualname__
+                want_name = "root" if name in ("", "root") else name if name is not None else type(target).__qualname__
                 if obj.name != want_name:
                     res.fail("logger-name", f"Logger.name={obj.name!r}, configured {want_name!r}")
                     return res
@@ -241,12 +242,13 @@ def run_case(spec) -> Result:
             if res.violations:
                 return res
         n_log = sum(1 for L in layers if L["k"] == "logger")
-        res.cls("depth:%d" % len(layers), "loggers:%d" % n_log, "transparent:" + str(transparent))
+        res.cls("depth:%d" % len(layers), "loggers:%d" % n_log, "transparent:" + str(transparent),
+                "root-logger:" + str(any(L["k"] == "logger" and L["name"] in ("", "root") for L in layers)))
         res.nontrivial = (len(layers) >= 2 and n_log >= 1 and writes >= 1) or nt_template
     except Exception as e:
         res.fail("unexpected-exception", f"{type(e).__name__}: {e}")
     finally:
-        for lg, h, old in cleanup:
+        for lg, h, old in reversed(cleanup):
             lg.removeHandler(h)
             lg.setLevel(old[0])
             lg.propagate = old[1]
